@@ -58,8 +58,8 @@ def native_call(so, fn, spec, ret='i32', timeout=20, san=False):
     if san:
         rt = subprocess.run(['clang++-14', '-print-file-name=libclang_rt.asan-x86_64.so'], capture_output=True, text=True).stdout.strip()
         env['LD_PRELOAD'] = rt
-        env['ASAN_OPTIONS'] = 'detect_leaks=0:abort_on_error=0:exitcode=77'
-        env['UBSAN_OPTIONS'] = 'halt_on_error=1:exitcode=78:print_stacktrace=0'
+        env['ASAN_OPTIONS'] = 'detect_leaks=0:abort_on_error=0:exitcode=77:symbolize=0:fast_unwind_on_fatal=1'
+        env['UBSAN_OPTIONS'] = 'halt_on_error=1:exitcode=78:print_stacktrace=0:symbolize=0'
     try:
         r = subprocess.run([PY, os.path.join(VERIF, 'engine', 'nativecall.py')], input=js, capture_output=True, text=True, timeout=timeout, env=env)
     except subprocess.TimeoutExpired:
@@ -347,9 +347,11 @@ def confirm(res, pid, harness, fn, spec, ret, oracle, oracles, key, what, timeou
 def run_replay(rec, oracles, so=None):
     if so is None: _, so = load(rec['harness'])
     spec = spec_from_json(rec['args'])
-    if rec.get('san'):
+    if rec.get('san') == 'assert':
+        so = build.build_dbg_so(os.path.join(VERIF, 'harness', rec['harness']))
+    elif rec.get('san'):
         so = build.build_san_so(os.path.join(VERIF, 'harness', rec['harness']))
-    r = native_call(so, rec['fn'], spec, rec['ret'], timeout=rec.get('timeout', 20), san=bool(rec.get('san')))
+    r = native_call(so, rec['fn'], spec, rec['ret'], timeout=rec.get('timeout', 20), san=bool(rec.get('san')) and rec.get('san') != 'assert')
     return oracles[rec['oracle']](spec, r, rec.get('extra'))
 
 def replay_main(path, oracles):
